@@ -58,7 +58,7 @@ Proof.
     cbn [group]. destruct rest as [| r rs].
     + rewrite canon_cons_keep by exact Hka. rewrite canon_cons_keep by exact Hkb. rewrite Hua, Hub. reflexivity.
     + rewrite canon_cons_keep by exact Hka. rewrite canon_cons_keep by exact Hkb.
-      rewrite canon_cons_drop by (unfold keep, FP_SEPARATOR; cbn; apply andb_false_r).
+      rewrite canon_cons_drop by reflexivity.
       rewrite Hua, Hub, (IH HF2). reflexivity.
 Qed.
 
@@ -137,7 +137,10 @@ Qed.
 
 (* ------------------------------------------------------------------ digest rendering *)
 Lemma hexc_uhex n : 0 <= n < 16 -> uhex (hexc n) = true.
-Proof. unfold uhex, hexc. intros H. zb. Qed.
+Proof.
+  intros H. assert (Hn : In n [0;1;2;3;4;5;6;7;8;9;10;11;12;13;14;15]) by (cbn; lia).
+  cbn in Hn. repeat (destruct Hn as [<- | Hn]; [reflexivity |]). contradiction.
+Qed.
 
 Lemma hexpair_uhex b : 0 <= b < 256 -> Forall (fun c => uhex c = true) (hexpair b).
 Proof.
